@@ -27,9 +27,11 @@ import (
 //   * cheque store    = real chequePkg.NewChequeStore over verifC30Store (typed
 //                       in-memory store, deep copies = exact JSON round trip),
 //                       recipient = the node's chain address as in pkg/node/chain.go;
-//   * signature       = abstract token [ok-flag | 20 byte signer] decoded by
-//                       verifC30Recover (Dolev-Yao: any cheque may recover to
-//                       any address or fail; real ECDSA outside the claim);
+//   * signature       = abstract scheme: verifC30Recover is an uninterpreted
+//                       function of (recipient, stated issuer, payout, signature
+//                       bytes) - success and recovered address arbitrary but
+//                       deterministic in content AND signature (see the
+//                       cheque-package harness; real ECDSA outside the claim);
 //   * address book    = verifC30Book: two peers, each unregistered or registered
 //                       with an arbitrary chain address, fixed during the history;
 //   * subPub          = verifC30SubPub (notifications dropped);
@@ -125,16 +127,57 @@ func (s *verifC30Store) Close() error                                          {
 
 var verifC30ErrBadSig = errors.New("verif: signature does not recover")
 
-const verifC30SigLen = 21
+const verifC30SigLen = 3
 
+// verifC30Payouts: the payouts put on cheques so far; a payout is named by
+// the index of its first occurrence.
+var verifC30Payouts []*big.Int
+
+func verifC30PayoutID(p *big.Int) byte {
+	id := byte(0xff)
+	for i := len(verifC30Payouts) - 1; i >= 0; i-- {
+		if verifC30Payouts[i].Cmp(p) == 0 {
+			id = byte(i)
+		}
+	}
+	return id
+}
+
+func verifC30SigKey(c *chequePkg.SignedCheque) []byte {
+	k := make([]byte, 0, 41+len(c.Signature))
+	k = append(k, c.Recipient[:]...)
+	k = append(k, c.Beneficiary[:]...)
+	k = append(k, verifC30PayoutID(c.CumulativePayout))
+	return append(k, c.Signature...)
+}
+
+// verifC30SigEval: the abstract signature scheme as a total function of the
+// cheque: does (content, signature) recover, and to which address (branch-free,
+// so that the harness's own evaluation does not split paths).
+func verifC30SigEval(c *chequePkg.SignedCheque) (ok bool, a common.Address) {
+	key := verifC30SigKey(c)
+	ok = zzverif.BoolOf("sig-recovers", key)
+	// the recovered address ranges over the same address space as all others
+	// (verifC30AddrBytes arbitrary trailing bytes)
+	for w := 0; w*8 < verifC30AddrBytes; w++ {
+		v := zzverif.U64Of(verifC30SignerUF[w], key)
+		for j := 0; j < 8 && w*8+j < verifC30AddrBytes; j++ {
+			a[19-w*8-j] = byte(v >> (8 * uint(j)))
+		}
+	}
+	return
+}
+
+// verifC30Recover: the RecoverChequeFunc handed to NewChequeStore.
 func verifC30Recover(c *chequePkg.SignedCheque, chainID int64) (common.Address, error) {
-	if len(c.Signature) != verifC30SigLen || c.Signature[0]&1 == 0 {
+	ok, a := verifC30SigEval(c)
+	if !ok {
 		return common.Address{}, verifC30ErrBadSig
 	}
-	var a common.Address
-	copy(a[:], c.Signature[1:])
 	return a, nil
 }
+
+var verifC30SignerUF = [3]string{"sig-signer0", "sig-signer1", "sig-signer2"}
 
 // verifC30AddrBytes: number of symbolic (trailing) bytes of every address; the
 // leading bytes are zero.
@@ -223,6 +266,7 @@ func VerifC30_Service() {
 	maxSteps := zzverif.Param("steps", 2, 3)
 	steps := zzverif.Choose("history-length", maxSteps) + 1
 	verifC30AddrBytes = zzverif.Param("address-symbolic-bytes", 1, 2)
+	verifC30Payouts = nil
 	self := verifC30Addr("self")
 	st := &verifC30Store{}
 	cs := chequePkg.NewChequeStore(st, self, verifC30Recover, 7)
@@ -255,15 +299,16 @@ func VerifC30_Service() {
 		if zzverif.Bool("negative") {
 			payout = new(big.Int).Neg(payout)
 		}
+		verifC30Payouts = append(verifC30Payouts, new(big.Int).Set(payout))
 		sig := zzverif.BytesN("sig", verifC30SigLen)
 		recipient, issuer := verifC30Addr("recipient"), verifC30Addr("issuer")
 		c := &chequePkg.SignedCheque{
 			Cheque:    chequePkg.Cheque{Recipient: recipient, Beneficiary: issuer, CumulativePayout: new(big.Int).Set(payout)},
 			Signature: sig,
 		}
-		sigOK := sig[0]&1 != 0
-		var signer common.Address
-		copy(signer[:], sig[1:])
+		// what the signature scheme says about exactly this cheque
+		cp := verifC30Clone(c)
+		sigOK, signer := verifC30SigEval(&cp)
 
 		err := svc.ReceiveCheque(context.Background(), sender, c)
 
